@@ -214,7 +214,7 @@ impl Prop for Synthesis {
         "synthesis".into()
     }
     fn rule(&self) -> String {
-        "voice in {generated (2/3 streams, MCP or LSP stage 1..4, 1..7 states, window sets) 85 % | bundled | PDF-perturbed bundled}, 0..24 labels from {consecutive | shuffled | recombined | structurally random}, condition inside the envelope (each scalar default/edge/uniform 3:2:5; rate and frame-period overrides), alignment off or on with generated times; oracle: Ok, length == fperiod x F, F >= labels x states with every state >= 1, empty -> empty, finiteness w.r.t. the stable-range predicate, waveform == harness rendering of the hook trajectories, trajectories == public Models + MlpgAdjust recomputation (1e-9). Non-trivial: >= 2 labels and (non-default condition or non-bundled voice)".into()
+        "voice in {generated (2/3 streams, MCP or LSP stage 1..4, 1..7 states, window sets) 85 % | bundled | PDF-perturbed bundled}, 0..24 labels from {consecutive | shuffled | recombined | structurally random}, condition inside the envelope (each scalar default/edge/uniform 3:2:5; rate and frame-period overrides), alignment off or on with generated times (1 %: frame count pinned by the last end stamp to 2^k or 2^k+-1 with a power-of-two frame period, i.e. 2^16 / 2^20 samples); oracle: Ok, length == fperiod x F, F >= labels x states with every state >= 1, empty -> empty, finiteness w.r.t. the stable-range predicate, waveform == harness rendering of the hook trajectories, trajectories == public Models + MlpgAdjust recomputation (1e-9). Non-trivial: >= 2 labels and (non-default condition or non-bundled voice)".into()
     }
     fn tape_len(&self, _: Tier) -> usize {
         12000
@@ -223,6 +223,23 @@ impl Prop for Synthesis {
         tier.pick(2_000, 80_000)
     }
     fn decode(&self, t: &mut Tape, _: Tier) -> Case {
+        // 1 %: an utterance whose size is PINNED through the alignment: the end stamp of the last label
+        // makes the frame count F a power of two (or one beside it) and the frame-period override is a
+        // power of two as well, so that F x fperiod is exactly 2^16 or 2^20 samples or one frame off
+        if t.chance(0.01) {
+            let n = t.urange(2, 5);
+            let (labels, _) = crate::corpus::gen_label_lines(t, n, false);
+            let (fp, f_log2) = *t.pick(&[(256usize, 12u32), (256, 8), (128, 13), (128, 9), (64, 14), (64, 10), (16, 12), (240, 12), (240, 8)]);
+            let frames = ((1usize << f_log2) as i64 + *t.pick(&[0i64, 0, 0, -1, 1])) as f64;
+            let mut cond = crate::engine_case::Cond::default_for(3);
+            cond.fperiod = Some(fp);
+            // 100 ns units per frame at the bundled voice's 48 kHz
+            let frame_100ns = fp as f64 * 1e7 / 48000.0;
+            let mut times: Vec<Option<(f64, f64)>> = vec![None; n];
+            times[n - 1] = Some((-1.0, frames * frame_100ns));
+            let base = crate::engine_case::EngineCase { voice: crate::engine_case::VoiceChoice::Bundled, source: "pinned-size".into(), labels, cond };
+            return Case { base, alignment: true, times: Some(times), prior_voice: None };
+        }
         let base = gen_engine_case(t, 24, 12, true, GenOpts::default());
         let alignment = t.chance(0.25);
         let times = if alignment && t.chance(0.7) && !base.labels.is_empty() {
@@ -269,7 +286,8 @@ impl Prop for Synthesis {
         // (2)(3): expected frames through the public API
         let (durations, nstate, nlabels) = expected_durations(&engine, &lines, c.alignment)?;
         let f: usize = durations.iter().sum();
-        if f > 8000 || f * fp > 4_000_000 {
+        let pinned = c.base.source == "pinned-size";
+        if (f > 8000 && !(pinned && f <= 17000)) || f * fp > 4_200_000 {
             return Ok(Report::rejected("too-long"));
         }
         ensure!(durations.len() == nlabels * nstate && durations.iter().all(|d| *d >= 1), "state-floor", "durations {:?}: every state of every label must last >= 1 frame", durations);
